@@ -163,6 +163,35 @@ def monitor_if_present(res, ctx, module, timeout=1500, drop=None):
     return monitor(res, ctx, module, timeout, drop)
 
 
+def engine_selftest(res):
+    """Guard (DESIGN 4): the executor's rules for try / finally, tuple(), dict.pop, sorted(dict) and dictionary stores are run
+    on small functions with exact contracts (selftest/engine_cases.py); each must be proved and a wrong variant must not be.
+    A failure is a checker fault (exit 3), never a verdict."""
+    import copy
+    from . import k1
+    from .contract import load_registry
+    import contracts.engine_selftest as E
+    reg = load_registry('contracts.engine_selftest:registry')
+    n = 0
+    for name, con in reg.contracts.items():
+        r = k1.run_contract(reg, con, 'quick', '', 'contracts.engine_selftest')
+        n += len(r['obs'])
+        if not r['obs'] or any(o['status'] != 'discharged' for o in r['obs']):
+            res.conformance.setdefault('mismatches', []).append(
+                {'contract': 'engine_selftest:' + name, 'what': 'exact contract of a self-test function not proved', 'args': None})
+        if name in E.CANARIES:
+            clause, text = E.CANARIES[name]
+            c2 = copy.copy(con)
+            c2.ensures = dict(con.ensures)
+            c2.ensures[clause] = text
+            r2 = k1.run_contract(reg, c2, 'quick', '', 'contracts.engine_selftest', timeout_ms=3000, retry=False)
+            st = [o['status'] for o in r2['obs'] if o['name'].endswith('post.' + clause)]
+            if not st or st[0] == 'discharged':
+                res.conformance.setdefault('mismatches', []).append(
+                    {'contract': 'engine_selftest:' + name, 'what': 'a wrong contract of a self-test function was proved', 'args': text})
+    res.conformance['engine_selftest'] = f'{len(reg.contracts)} functions, {n} obligations proved, {len(E.CANARIES)} wrong variants rejected'
+
+
 def conformance(res, modname, cases):
     """Encoding conformance (engine vs CPython, DESIGN 4 item 3): cases = {contract name: [ {param: codec json}, ... ]}.
     A mismatch is a checker fault (exit 3), never a verdict."""
